@@ -17,7 +17,7 @@ from .. import REPO, VERIF
 
 ID = "C18"
 LEVEL = "exploration"
-RULE = ("fresh interpreter per PYTHONHASHSEED in 0..15 (quick) / 0..63 (thorough); inside each, the "
+RULE = ("fresh interpreter per PYTHONHASHSEED in 0..31 (quick) / 0..95 (thorough); inside each, the "
         "11-item battery (escaping of quotes/newlines/metacharacters, same dependency name with two "
         "spellings of one version in separate documents, a second text document + css()/number conversions of "
         "equal-but-different values, documents with 7+ dependency names, "
@@ -44,7 +44,7 @@ def run_child(seed, nperm):
 
 
 def make_run(tier):
-    seeds = list(range(16)) if tier == "quick" else list(range(64))
+    seeds = list(range(32)) if tier == "quick" else list(range(96))
     nperm = 5 if tier == "quick" else 7
 
     def run(ctx):
